@@ -6,32 +6,9 @@ boundary list of n up to 65537 (the searches abstract serial numbers to ranks; t
 from . import pcommon
 NEED = ('stray-old', 'stray-malformed', 'stray-ghost', 'stray-notowed', 'reannounce-live', 'withdraw-while-owed')
 
-from .. import alpha, e1
-
-
-def reload_alphabet(ids):
-    """Hurry-up scenario of one client plus reloads of the service table at any point: the awaited login service is removed,
-    a differently named login service (ghost.svc) is added - possibly into the vacated slot - or the original table returns."""
-    base = alpha.make(ids, data=('H',), ends=('D',), passwords=('x', 'bang'), replies=('OKA', 'MORE'), old_replies=(), malformed=(),
-                      ghost_replies=('OKA', 'MORE'), pbudget=2, dead_probes=False, reannounce=False)
-    def fn(st, w):
-        return base(st, w) + [('RL', 'none.conf'), ('RL', 'ghost.conf'), ('RL', 'orig.conf')]
-    return fn
-
-
-def reload_search(tier):
-    services = [('login.svc', 'login')]
-    rules = pcommon.rules_for(services)
-    files = {'none.conf': lambda md: e1.conf_text(md, services=[], timeout=0, rules=rules),
-             'ghost.conf': lambda md: e1.conf_text(md, services=[('ghost.svc', 'login')], timeout=0, rules=rules),
-             'orig.conf': lambda md: e1.conf_text(md, services=services, timeout=0, rules=rules)}
-    return dict(label='solo/reloads/login/t0', services=services, rules=rules, timeout=0, ids=[1], alphabet=reload_alphabet([1]), flags=e1.F_DUMP | e1.F_STATS,
-                maxdepth=12 if tier != 'quick' else 8, maxstates=60000 if tier != 'quick' else 6000, keep_refs=True, reload_files=files, merge_check=False)
-
-
 def plan(tier):
     p = pcommon.plan_solo(tier, which=('hurry',)) if tier == 'quick' else pcommon.plan_solo(tier)
-    return p + [reload_search(tier)]
+    return p + [pcommon.reload_search(tier)]
 
 def main(tier):
     return pcommon.run_plan('C04', tier, plan(tier), ('C04.',), NEED, extra_cov=lambda run: pcommon.serial_sweep(run, ('C04.',)))
